@@ -69,7 +69,9 @@ class Wrapper(Contract):
                            circ_rna=FnView(st.nC, circ_at, tag='circ_rna'), intronic=[])
         st.anno = SymObj('AnnoStub7')
         st.ref = SymObj('ReferenceData', anno=st.anno, genome=None, canonical_peptides=set())
-        st.pool = SymObj('VariantRecordPool', data={}, anno=st.anno)
+        st.shared_tx = SymObj('VariantList', shared=True)
+        st.shared_series = SymObj('TranscriptionalVariantSeries', transcriptional=st.shared_tx, fusion=[], circ_rna=[], intronic=[])
+        st.pool = SymObj('VariantRecordPool', data={}, anno=st.anno, series_obj=st.shared_series)
         st.kwargs = dict(tx_id=tx_id, variant_series=st.series, tx_seqs={tx_id: SymObj('TxSeq')},
                          gene_seqs={}, reference_data=st.ref, pool=st.pool,
                          cleavage_params=SymObj('CleavageParams'),
@@ -176,9 +178,11 @@ class Wrapper(Contract):
 
         def pool_get(I, o, key):
             may_raise(I, 'pool_getitem')
-            return SymObj('TranscriptionalVariantSeries', transcriptional=SymObj('VariantList'), fusion=[], circ_rna=[], intronic=[])
+            if 'series_obj' not in o.fields:
+                o.fields['series_obj'] = SymObj('TranscriptionalVariantSeries', transcriptional=SymObj('VariantList'), fusion=[], circ_rna=[], intronic=[])
+            return o.fields['series_obj']
         reg.protocol_('VariantRecordPool', '__getitem__', pool_get)
-        reg.protocol_('VariantRecordPool', '__setitem__', lambda I, o, key, v: o.fields.__setitem__('assigned', v))
+        reg.protocol_('VariantRecordPool', '__setitem__', lambda I, o, key, v: o.fields.__setitem__('series_obj', v))
 
     # ------------------------------------------------------------------ loops
     def flags_term(self, env):
@@ -230,7 +234,8 @@ class Wrapper(Contract):
             def is_unit(x):
                 return isinstance(x, SymObj) and 'unit' in x.fields and x.fields['unit'][0] == kind \
                     and z3.is_true(z3.simplify(x.fields['unit'][1] == k))
-            out = []
+            out = [('shared-variant-pool-left-as-it-was',
+                    st.pool.fields['series_obj'] is st.shared_series and st.shared_series.fields['transcriptional'] is st.shared_tx)]
             if st.unit_failed_now is not None:
                 out.append(('failed-unit-contributes-no-peptides', len(new_merged) == 0))
                 out.append(('failed-unit-stores-no-graph', len(new_writes) == 0))
@@ -261,6 +266,8 @@ class Wrapper(Contract):
             I.e.prove('C07/denylist/extended-only-by-a-successful-main-call', st.main_ok is True)
         main_merged = [x for x in st.merged if isinstance(x, SymObj) and x.fields.get('unit', ('?',))[0] == 'main']
         I.e.prove('C07/return/main-merged-iff-main-succeeded', (len(main_merged) == 1) == bool(st.main_ok))
+        I.e.prove('C07/return/shared-variant-pool-left-as-it-was',
+                  st.pool.fields['series_obj'] is st.shared_series and st.shared_series.fields['transcriptional'] is st.shared_tx)
         I.e.prove('C07/return/nothing-foreign-merged',
                   all(isinstance(x, SymObj) and x.cls == 'PeptideMap' for x in st.merged))
 
